@@ -203,23 +203,26 @@ class OpSpec:
             self.expect_ret = ("bool",)
         elif n == "read_memory":
             addr, ln = o["addr"], o["len"]
-            self.call = lambda: mb.read_memory(addr, ln, fast_mode=bool(o.get("fast")))
+            mid = o.get("mem_id", 0)
+            wire_mid = mid if (mid > 255 or mid == 0) else 0  # ids of mapped external memories are not sent (blhost: "not required")
+            self.call = lambda: mb.read_memory(addr, ln, mem_id=mid, fast_mode=bool(o.get("fast")))
             valid = core.mem.region(addr, ln) is not None
             if hid and not o.get("fast"):
                 # the host reads in chunks of the packet size *it* uses (it may legally fall back to a smaller one)
-                self.expected_hist = lambda: [("read_memory", addr + i, min(self.host_mp(), ln - i), 0) for i in range(0, ln, self.host_mp())]
+                self.expected_hist = lambda: [("read_memory", addr + i, min(self.host_mp(), ln - i), wire_mid) for i in range(0, ln, self.host_mp())]
                 if not valid:
                     self.expected_hist = None  # stops at the first refused chunk; checked through status only
             else:
-                self.expected_hist = [("read_memory", addr, ln, 0)]
+                self.expected_hist = [("read_memory", addr, ln, wire_mid)]
             self.expect_ret = ("bytes", core.mem.read(addr, ln) if valid else None)
             if ln == 0 and hid and not o.get("fast"):
                 self.expected_hist, self.expect_ret = [], ("bytes", b"")  # nothing to read: no command is issued
             self.frames = 4 + _frames(ln, mp) * (3 if hid else 1)
         elif n == "write_memory":
             data = gen_bytes(o["dseed"], o["len"])
-            self.call = lambda: mb.write_memory(o["addr"], data)
-            self.expected_hist = [("write_memory", o["addr"], len(data), 0)]
+            mid = o.get("mem_id", 0)
+            self.call = lambda: mb.write_memory(o["addr"], data, mem_id=mid)
+            self.expected_hist = [("write_memory", o["addr"], len(data), mid if (mid > 255 or mid == 0) else 0)]
             self.data_out, self.data_tag = data, md.C_WRITE_MEMORY
             self.expect_ret = ("bool",)
             self.frames = 4 + _frames(len(data), mp)
@@ -228,12 +231,13 @@ class OpSpec:
             self.expected_hist = [("fill_memory", o["addr"], o["len"], o["pattern"])]
             self.expect_ret = ("bool",)
         elif n == "flash_erase_region":
-            self.call = lambda: mb.flash_erase_region(o["addr"], o["len"])
-            self.expected_hist = [("flash_erase_region", o["addr"], o["len"], 0)]
+            mid = o.get("mem_id", 0)
+            self.call = lambda: mb.flash_erase_region(o["addr"], o["len"], mem_id=mid)
+            self.expected_hist = [("flash_erase_region", o["addr"], o["len"], mid if (mid > 255 or mid == 0) else 0)]
             self.expect_ret = ("bool",)
         elif n == "flash_erase_all":
-            self.call = lambda: mb.flash_erase_all()
-            self.expected_hist = [("flash_erase_all", 0)]
+            self.call = lambda: mb.flash_erase_all(mem_id=o.get("mem_id", 0))
+            self.expected_hist = [("flash_erase_all", o.get("mem_id", 0))]  # (no address: the id is what selects the memory)
             self.expect_ret = ("bool",)
         elif n == "flash_erase_all_unsecure":
             self.call = lambda: mb.flash_erase_all_unsecure()
@@ -866,6 +870,8 @@ def gen_op(rng: random.Random, mp: int, transport: str, cap: int) -> dict:
     bad = rng.random() < 0.08
     addr = (0x9000_0000 + off) if bad else base + off
     o: dict = {"op": name}
+    if name in ("read_memory", "write_memory", "flash_erase_region", "flash_erase_all") and rng.random() < 0.3:
+        o["mem_id"] = rng.choice([1, 8, 9, 0x100, 0x101, 0x110, 0x120])
     if name in ("write_memory", "receive_sb_file", "load_image", "kp_write_key_store", "fuse_program"):
         o.update(len=_len(rng, mp, cap), dseed=rng.randrange(1 << 30))
         if name in ("write_memory", "fuse_program"):
@@ -993,6 +999,26 @@ def gen_plan(family: str, i: int, rng: random.Random, tier: str) -> dict:
     plan = {"transport": transport, "max_packet": mp, "knobs": knobs, "ops": ops, "faults": []}
     if family == "control":
         return plan
+    if family == "lastpkt":
+        # the device refuses exactly the last data packet of a data phase (abort, NAK or abort frame for its ACK): the
+        # call must not count that packet as delivered
+        name = rng.choice(["load_image", "load_image", "write_memory", "receive_sb_file", "kp_set_user_key", "kp_write_key_store", "fuse_program"])
+        npk = rng.choice([1, 2, 2, 3, 4])
+        ln = (npk - 1) * mp + rng.choice([1, mp // 2, mp - 1, mp])
+        o = gen_op(rng, mp, transport, cap)
+        while o["op"] != name:
+            o = gen_op(rng, mp, transport, cap)
+        o["len"] = ln
+        o.setdefault("dseed", rng.randrange(1 << 30))
+        lead = [gen_op(rng, mp, transport, cap) for _ in range(rng.choice([0, 0, 1]))]
+        plan["ops"] = lead + [o]
+        k = len(lead)
+        kind = rng.choice(["dev_abort", "dev_abort", "nak", "ack_abort"]) if transport == "uart" else "dev_abort"
+        if kind == "dev_abort":
+            plan["faults"] = [{"op": k, "kind": "dev_abort", "cmd": 0, "after": npk - 1}]
+        else:
+            plan["faults"] = [{"op": k, "kind": kind, "ack": npk - 1 + rng.randrange(0, 4)}]
+        return plan
     if family == "props":
         # property decoding: listings interleaved with decodes for other boards' families, reads and writes
         plan["ops"] = []
@@ -1043,8 +1069,8 @@ def warm_up() -> None:
 
 def families(tier: str):
     if tier == "quick":
-        return [("control", 1500), ("faulty", 4000), ("extra", 300), ("sweep", 80), ("props", 200), ("sdp_control", 600), ("sdp_faulty", 1200), ("sdps", 150)]
-    return [("control", 40000), ("faulty", 110000), ("extra", 8000), ("sweep", 1500), ("props", 5000), ("sdp_control", 15000), ("sdp_faulty", 40000), ("sdps", 2000)]
+        return [("control", 1500), ("faulty", 4000), ("extra", 300), ("sweep", 80), ("lastpkt", 300), ("props", 200), ("sdp_control", 600), ("sdp_faulty", 1200), ("sdps", 150)]
+    return [("control", 40000), ("faulty", 110000), ("extra", 8000), ("sweep", 1500), ("lastpkt", 8000), ("props", 5000), ("sdp_control", 15000), ("sdp_faulty", 40000), ("sdps", 2000)]
 
 
 def reductions(plan: dict):
